@@ -12,7 +12,7 @@
 
 #include "h3api.h"
 
-extern FILE *vt_out;
+extern __thread FILE *vt_out;     /* per thread: a driver thread may redirect its events into a memory stream */
 void vt_open(const char *path);
 void vt_close(void);
 /* 64-bit word as [top19, w1, w2, w3] (TLC integers are 32-bit) */
